@@ -67,13 +67,16 @@ SUITES = {
     "C07": {
         "quick": [("km", ["pan_raw_replace_entry_with__s8_4a", "pan_raw_replace_entry_with__s8_8g0", "pan_raw_replace_entry_with__s8_8g4",
                           "pan_replace_entry_with__s8_8g0", "pan_retain__s8_4a", "pan_retain__s8_8g0", "pan_drain_filter__s8_4a_m0111_at3",
-                          "pan_drain_filter__s8_8g0_m0110_at3", "pan_or_insert_with__u4f", "pan_or_insert_with__s8_4a", "pan_and_modify__s8_8g0"])],
+                          "pan_drain_filter__s8_8g0_m0110_at3", "pan_or_insert_with__u4f", "pan_or_insert_with__s8_4a", "pan_and_modify__s8_8g0",
+                          "pan_hash_in_insert__s8_4a_at1", "pan_hash_in_insert__s8_8g4_at1", "pan_hash_in_insert__u4f_at2"])],
         "thorough": [("km", ["pan_*"])],
     },
     "C08": {
         "quick": [("km", ["it_iter__s8_4a_c0", "it_iter__s8_8g4_c1", "it_iter__s8_e_c1", "it_iter__u8_3t_c1", "it_keys_values__s8_8g4",
                           "it_iter_mut__s8_8g4", "it_values_mut__s8_8g4", "it_into_iter__s8_4a_j1", "it_into_iter__s8_8g4_end",
-                          "it_into_iter__s8_e_end", "it_drain__s8_4a_j1", "it_drain__s8_8g4_j2f", "it_drain__s8_4a_end", "it_drain__u8_3t_endf"])],
+                          "it_into_iter__s8_e_end", "it_drain__s8_4a_j1", "it_drain__s8_8g4_j2f", "it_drain__s8_4a_end", "it_drain__u8_3t_endf",
+                          # iterators are built from the cached old-table iterator: the calls that must keep it exact (I2)
+                          "st_raw_replace_with__s8_8g0", "st_remove__s8_8g0", "rt_retain__s8_8g0", "st_insert__s8_8g4"])],
         "thorough": [("km", ["it_*"])],
     },
     "C09": {
@@ -102,7 +105,7 @@ SUITES = {
         "quick": [("km", ["dr_insert__s8_4a", "dr_insert__u4f", "dr_remove__s8_4one", "dr_remove__s8_8g4", "dr_clear_drop__s8_8g4", "dr_clear_drop__s8_e",
                           "dr_retain__s8_8g0", "dr_drain__s8_4a_j1", "dr_drain__s8_4a_end", "dr_drain__s8_4a_j2f", "dr_into_iter__s8_4a_j1", "dr_into_iter__s8_8g4_end",
                           "dr_drain_filter__s8_4a_m1101_j1", "dr_entry_replace_entry__s8_8g0", "dr_entry_replace_key__s8_8g0", "dr_entry_replace_with__s8_8g0", "dr_entry_replace_with__s8_8g4",
-                          "dr_entry_remove__s8_8g4", "dr_clone__s8_4a", "it_into_iter__s8_4a_j1"])],
+                          "dr_entry_remove__s8_8g4", "dr_clone__s8_4a", "it_into_iter__s8_4a_j1", "dr_reserve__s8_4a", "dr_extend1__s8_4a"])],
         "thorough": [("km", ["dr_*", "it_into_iter__*"])],
     },
     "C11": {
